@@ -154,6 +154,12 @@ def embed(ops, n):
 def dense_hamiltonian(model, n, c):
     """independent dense Hamiltonian, site 0 = leftmost Kronecker factor (docstrings of MPO.ising / MPO.heisenberg)"""
     h = np.zeros((2**n, 2**n), dtype=complex)
+    if model == "pauli":    # site-dependent couplings and fields: not symmetric under reversing the chain
+        for i in range(n - 1):
+            h += c["zz"][i] * embed({i: PAULI["Z"], i + 1: PAULI["Z"]}, n)
+        for i in range(n):
+            h += c["x"][i] * embed({i: PAULI["X"]}, n) + c["z"][i] * embed({i: PAULI["Z"]}, n)
+        return h
     if model == "ising":
         for i in range(n - 1):
             h += -c["J"] * embed({i: PAULI["Z"], i + 1: PAULI["Z"]}, n)
@@ -169,6 +175,12 @@ def dense_hamiltonian(model, n, c):
 
 
 def make_operator(model, n, c):
+    if model == "pauli":
+        terms = [(c["zz"][i], f"Z{i} Z{i + 1}") for i in range(n - 1)]
+        terms += [(c["x"][i], f"X{i}") for i in range(n)] + [(c["z"][i], f"Z{i}") for i in range(n)]
+        op = MPO()
+        op.from_pauli_sum(terms=terms, length=n)
+        return op
     if model == "ising":
         return MPO.ising(length=n, J=c["J"], g=c["g"])
     return MPO.heisenberg(n, c["Jx"], c["Jy"], c["Jz"], c["h"])
@@ -317,12 +329,14 @@ def gen(rng, tier):
             for k in (1, 2):
                 heldout.append({"kind": "heldout", "model": model, "solver": solver, "k": k, "L": rng.choice([2, 3]),
                                 "sub": rng.randrange(1 << 30)})
+    for solver in ("MCWF", "TJM"):    # a chain that is not mirror symmetric (the dense back-end builds H with its own index convention)
+        heldout.append({"kind": "heldout", "model": "pauli", "solver": solver, "k": 1, "L": 3, "sub": rng.randrange(1 << 30)})
     for _ in range(8 if tier == "quick" else 6 * n):
         solver = rng.choice(["MCWF", "TJM"])
         k = rng.choice([1, 2, 2, 3])
         if tier == "quick" and solver == "TJM" and k == 3:
             k = 2  # 16^3 TDVP sequences cost ~40 s on a loaded machine: thorough only
-        heldout.append({"kind": "heldout", "model": rng.choice(["ising", "heis"]), "solver": solver, "k": k,
+        heldout.append({"kind": "heldout", "model": rng.choice(["ising", "heis", "pauli"]), "solver": solver, "k": k,
                         "L": rng.choice([2, 3, 3] if tier == "quick" else [2, 3, 3, 4]), "sub": rng.randrange(1 << 30)})
     rng.shuffle(heldout)
     traces = [{"kind": "trace", "model": rng.choice(["ising", "heis"]), "solver": s, "k": k, "L": rng.choice([2, 3]),
@@ -574,6 +588,9 @@ def run_reprep_mps(inp):
 
 # ----------------------------------------------------------------------------------------------- real tomography
 def couplings(r, model):
+    if model == "pauli":
+        return {"zz": [round(r.uniform(0.3, 1.4), 3) for _ in range(8)], "x": [round(r.uniform(0.2, 1.2), 3) for _ in range(8)],
+                "z": [round(r.uniform(-0.8, 0.8), 3) for _ in range(8)]}
     if model == "ising":
         return {"J": round(r.uniform(0.3, 1.5), 3), "g": round(r.uniform(0.2, 1.2), 3)}
     return {"Jx": round(r.uniform(0.3, 1.2), 3), "Jy": round(r.uniform(0.3, 1.2), 3), "Jz": round(r.uniform(0.3, 1.2), 3),
